@@ -29,6 +29,9 @@ EXPLANATION += (
     " ADDED: C03.4 also requires every inline / crossline count that reaches a count or size field of the fresh header to come from the output geometry (the conversion window), not from the source axes. C03.5 additionally: reader-derived writers (cropper, re-blocker) emit the arrays in header-word table order (iterating the reader's stored-key list, which must hold one key per stored array - duplicates of another header word excluded - not a lazily filled memo dict whose order is the call history), take the full grid arrays (include_padding / grid reshape) rather than the mask-compacted ones, `x += pad` accumulations and companion writes in the same iteration are summed, and a padding gate on the SOURCE's version is evaluated on both outcomes against the stride of the version the OUTPUT is stamped with. C03.8: bytes 28:32 are decoded only under the 0.1.6 unit gate (or on the 2D branch) and a copied header whose version stamp is replaced also rewrites them. C03.9: the cropper's aligned upper bounds are provably within the source axis on every path (clip semantics, conditional expressions forked)."
 )
 EXPLANATION += (
+    ' ADDED (session 4): C03.11 - reader wiring: each size slot of the header (blocks of header, disk blocks of data, bytes per header array, number of arrays) is followed by def-use to the one reader attribute that holds it; the offset given to stored header array j in get_header_dict normalises to 512*... = DISK*(header blocks + data blocks) + j*stride with every parameter bound at the call site to the attribute of that role and j counting the arrays located so far (list length or counter); data_start_bytes = DISK * header blocks. C03.12 - writers that copy the source header keep its length (rule of C10.9 for every writer).'
+)
+EXPLANATION += (
     ' C03.10: the ordering facts of the writer pipeline (rules C16.1-C16.7) are part of conformance: every block is on disk, once and in order, before the footer is appended and the patches are made.'
 )
 ASSUMPTIONS = [
@@ -96,6 +99,9 @@ def run(ctx):
     roles = WR.footer_location(ctx, ht, 'C03.11')
     WR.size_attr_uses(ctx, ht, 'C03.11', roles)
     ctx.floor('C03.11', 7, 'wiring facts')
+    ctx.rule('C03.12', 'writers that copy the source header keep its length: no slice store past the end of a one-block header')
+    HR.check_copy_bounds(ctx, ht, 'C03.12')
+    ctx.floor('C03.12', 10, 'stores into header copies')
     ctx.floor('C03.1', 60, 'slot ranges')
     ctx.floor('C03.2', 50, 'slot codecs')
     ctx.floor('C03.3', 25, 'slot roles')
